@@ -26,6 +26,7 @@ def run(ctx):
     ctx.each(r11d, ctx, repo)
     ctx.each(r11e, ctx, repo, "R11e")
     ctx.each(r11f, ctx, repo)
+    ctx.each(r11g, ctx, repo)
 
 
 def _is_one(e):
@@ -385,3 +386,45 @@ def _rewrite_interpolates(body, mapping):
         ast.fix_missing_locations(s2)
         out.append(s2)
     return out
+
+
+def _truth_uses(fn_node, name):
+    """Places where the value of ``name`` is used as a bare truth value (if x / not x / x and .. / x or .. / while x / ternary)."""
+    out = []
+    for n in own_nodes(fn_node):
+        tests = []
+        if isinstance(n, (ast.If, ast.While, ast.IfExp)):
+            tests.append(n.test)
+        elif isinstance(n, ast.Assert):
+            tests.append(n.test)
+        elif isinstance(n, ast.comprehension):
+            tests += n.ifs
+        for t in tests:
+            stack = [t]
+            while stack:
+                e = stack.pop()
+                if isinstance(e, ast.BoolOp):
+                    stack += e.values
+                elif isinstance(e, ast.UnaryOp) and isinstance(e.op, ast.Not):
+                    stack.append(e.operand)
+                elif isinstance(e, ast.Name) and e.id == name:
+                    out.append((n, t))
+    return out
+
+
+def r11g(ctx, repo):
+    ctx.rule("R11g", "an overwrite of zero is an overwrite: in ProgramInstructions the value of a spending / capacity / coverage overwrite (the item of alloc.items(), capacity.items(), coverage.items()) is tested for presence with `is None` / `is not None` / isinstance only, never by truthiness (0 and 0.0 are falsy)")
+    n = 0
+    for fi in repo.module("programs").all_functions():
+        if not fi.qualname.startswith("ProgramInstructions."):
+            continue
+        for l in own_nodes(fi.node):
+            if isinstance(l, ast.For) and isinstance(l.iter, ast.Call) and isinstance(l.iter.func, ast.Attribute) and l.iter.func.attr == "items" and isinstance(l.target, ast.Tuple) and len(l.target.elts) == 2 and isinstance(l.target.elts[1], ast.Name):
+                src = ast.unparse(l.iter.func.value)
+                if not any(k in src for k in ("alloc", "capacity", "coverage")):
+                    continue
+                v = l.target.elts[1].id
+                n += 1
+                uses = [(st, t) for st, t in _truth_uses(fi.node, v) if any(x is st for x in ast.walk(l))]
+                ctx.check(not uses, "R11g", fi, uses[0][0] if uses else l, "`%s` from %s.items() is never used as a truth value" % (v, src), "`%s` tests the overwrite value `%s` for truth: an overwrite of exactly 0 (defund the program, zero capacity, zero coverage) is dropped and the program-book value is used instead, so the explicit overwrite does not take precedence" % (ast.unparse(uses[0][1])[:60] if uses else "", v))
+    ctx.require(n >= 3, "R11g: fewer overwrite loops in ProgramInstructions (%d) than confirmed (3)" % n)
